@@ -675,3 +675,31 @@ Proof.
   - reflexivity.
   - split; [congruence|]. rewrite E2. unfold c1, set_pos; cbn [size]. exact F3.
 Qed.
+
+(** * The decision procedure for the hypotheses is sound *)
+
+Lemma suppressed_ok_sound ops : forall c a,
+  suppressed_ok c a ops = true -> suppressed_returns c a ops.
+Proof.
+  induction ops as [|o ops IH]; intros c a H; [exact I|].
+  destruct o; cbn [suppressed_ok suppressed_returns] in *; try (apply IH; exact H).
+  apply andb_prop in H as [H1 H2]. split; [|apply IH; exact H2].
+  intros E. rewrite E in H1. cbn [orb] in H1. lia.
+Qed.
+
+Theorem checked_script_reports_bounded_pos c ops n :
+  hyp_ok c ops = true ->
+  let c' := run_state c (firstn n ops) in
+  let sum := raw_sum (run_events c (firstn n ops)) in
+  (enabled c' = true -> sum = bounded_pos c') /\ 0 <= sum <= size c.
+Proof.
+  intros H. unfold hyp_ok in H.
+  repeat (apply andb_prop in H as [H ?]).
+  assert (Hwf : wf c) by (unfold wf; lia).
+  assert (Hf : fresh c).
+  { split; [exact Hwf|]. split; [destruct (closed c); [discriminate|reflexivity]|].
+    intros E. rewrite E in *. cbn in *. lia. }
+  destruct (fresh_inv c Hf) as [Hinv _].
+  apply (reported_eq_bounded_pos_general c 0 ops n Hwf); try assumption.
+  now apply suppressed_ok_sound.
+Qed.
